@@ -8,6 +8,19 @@ from lib import vfmt
 
 # ------------------------------------------------------------------ script generation
 def gen_script(rng, tier, focus=None):
+    if focus == 'aged':
+        # a long-lived multiplexed connection (see 'aged' below) with several calls in flight together: small and
+        # three-byte tags side by side, replies held back and released in either order, some calls timing out on the wire
+        steps = [['srv', 0, rng.choice(['hold', 'hold', 'delay', 'drop']), rng.choice([20, 60])], ['adv', 50]]
+        for _ in range(rng.choice([1, 2])):
+            for _ in range(rng.choice([3, 5, 8])):
+                steps.append(['call', rng.choice([5, 10, 30]) * 10 + rng.randrange(1, 10)])
+            steps.append(['adv', rng.choice([1, 5, 31, 70])])
+            steps.append(['release', 0, rng.choice(['fifo', 'lifo'])])
+            if rng.random() < 0.4:
+                steps.append(['srv', 0, rng.choice(['echo', 'hold', 'delay']), 20])
+        steps += [['adv', 120], ['release', 0, 'fifo'], ['adv', 700]]
+        return {'stack': 'mux', 'neps': 1, 'open_delay': 0, 'pool': None, 'steps': steps, 'aged': True}
     if focus == 'parked':
         # several calls issued back to back so that they wait together between serialization and the wire: queued at
         # a saturated pool, or behind a connect that takes a while
@@ -25,7 +38,7 @@ def gen_script(rng, tier, focus=None):
         steps += [['release', 0, 'fifo'], ['adv', 700]]
         pool = rng.choice([[1, 1, 100], [0, 2, 100], [1, 2, 100]]) if stack == 'thrift' and not slow else None
         return {'stack': stack, 'neps': neps, 'open_delay': rng.choice([20, 40]) if slow else 0, 'pool': pool,
-                'steps': steps}
+                'steps': steps, 'aged': stack == 'mux' and rng.random() < 0.2}
     stack = rng.choice(['thrift', 'mux'])
     neps = rng.choice([1, 1, 2, 3])
     steps = []
@@ -64,7 +77,10 @@ def gen_script(rng, tier, focus=None):
     pool = None
     if stack == 'thrift' and rng.random() < 0.5:
         pool = rng.choice([[1, 1, 100], [0, 2, 1], [1, 2, 2], [1, 1, 0]])      # (min, max, max_queue): saturable pools
-    return {'stack': stack, 'neps': neps, 'open_delay': open_delay, 'pool': pool, 'steps': steps}
+    # 'aged': a long-lived multiplexed connection whose tag pool has handed out more than 2^16 tags (timed-out calls
+    # keep theirs for good) and got a few back: new calls get tags that need all three tag bytes, next to small ones
+    return {'stack': stack, 'neps': neps, 'open_delay': open_delay, 'pool': pool, 'steps': steps,
+            'aged': stack == 'mux' and rng.random() < 0.2}
 
 
 def shrink(script):
@@ -267,6 +283,20 @@ def run_script(script, comp='e2e'):
         return ['err', type(innerex).__name__]
 
     saved_ar = dispatch.AsyncResult
+    import scales.mux.sink as muxsink
+    saved_pool = muxsink.TagPool
+    if script.get('aged') and stack == 'mux':
+        class AgedPool(saved_pool):
+            def __init__(self, *a, **kw):
+                saved_pool.__init__(self, *a, **kw)
+                self._log.debug = lambda *a, **kw: None
+                for _ in range(65539):          # tags 2..65540 leased through the real pool
+                    self.get()
+                del self._log.debug
+                for t in (256, 257, 258, 65536, 65537, 65538, 513, 66049):
+                    self.release(t)
+        muxsink.TagPool = AgedPool
+        tags.add('aged-connection')
     if script.get('open_delay'):
         fakenet.NET.connect_delay = script['open_delay'] / 1000.0
     try:
@@ -347,6 +377,7 @@ def run_script(script, comp='e2e'):
         rt.drain()
     finally:
         dispatch.AsyncResult = saved_ar
+        muxsink.TagPool = saved_pool
         fakenet.NET.connect_delay = 0
     rt.kill_stragglers()
     tags.add(stack)
